@@ -81,6 +81,13 @@ add("C08", "enum", "bounded-exhaustive enumeration of BUILD-file programs from a
     "46 features (every value kind incl. cyclic and >1000-element data, defaults, closures, nested defs/lambdas, helpers in the same/loaded/second-level module, direct, mutual and loaded recursion, self-reference, other target objects, every predeclared kind, bound methods, flags, varargs) alone and in pairs (quick: a quarter of the pairs): each program is loaded twice at different roots (and in another OS process), its function environment must be computed without error or crash, be equal across loads with byte-equal encodings, differ after each of its listed single edits; build + rebuild executes once then nothing; after each edit the rebuild reason must name exactly the environment parts that differ.",
     "A dead worker (Go's stack overflow is fatal) is attributed to the program it was loading. Equality of environments with cyclic data is decided through their (deterministic) encodings.", "DESIGN.md section 5 C08")
 
+add("C10", "enum", "bounded-exhaustive enumeration of requirement universes x root sets through the real resolver (fake in-package dialer), reachability+max reference",
+    "All universes of 2 projects x 2 versions + 1 (quick; plus split-repository and two-major families) / 3x2, 2x3 and majors families (thorough, time-bounded) in which every (project, version) requires at most one version of every other project, x every root set with at most one version per project: BuildList on a cold cache, again on the same resolver, with a new resolver on the warm cache, with root names renamed and with declaration/tag order reversed must all equal the reference (breadth-first reachability over requirement edges, semver maximum per path); the resolver must download only reachable nodes.",
+    "Trusts the reference and the fake repository (dawn.toml files materialised in a tmpfs cache through the package's own Dialer seam). The third-party mvs library's goroutines run free; every universe is resolved five times and all answers must agree.", "DESIGN.md section 5 C10")
+add("C11", "enum", "bounded-exhaustive enumeration of universes x root sets x operation sequences (depth 2/3) as a memoised state graph, re-resolved against the reference",
+    "Over 12.6k universes (quick) in 9 families x root sets x {Tidy, UpgradeAll, Get by path/latest/upgrade/patch/exact/range prefix/>/>=/</<=/branch/revision/major} x all sequences of length <=2 (3 thorough): Tidy keeps the build list; an upgrade puts the resolved version in the build list and lowers nothing; a downgrade leaves the project at or below the request; surviving names are unchanged and new ones unique; repeating an operation on its own result changes nothing. Every operation runs under a 10 s hang guard in worker processes.",
+    "Query resolution is compared with an independent reference only where the code's own comments fix the meaning (closest tagged ancestor for refs; vX.Y as a lower-bound range). Three open known findings (non-idempotent Get in self-conflicting universes) are listed in known_findings.json.", "DESIGN.md section 5 C11")
+
 NA = {
 }
 for i in range(1, 21):
